@@ -234,6 +234,13 @@ func trunc(s string, n int) string {
 	return s
 }
 
+// CarriedPanic transports a panic (with its original stack) from a helper
+// goroutine to the goroutine that is guarded.
+type CarriedPanic struct {
+	Val   any
+	Stack string
+}
+
 // Guard runs f and converts a panic into a violation of the "never crashes" clause.
 // It returns true if f panicked.
 func (r *Run) Guard(c *Case, what string, caseData any, f func()) (panicked bool) {
@@ -241,6 +248,9 @@ func (r *Run) Guard(c *Case, what string, caseData any, f func()) (panicked bool
 		if p := recover(); p != nil {
 			panicked = true
 			st := string(debug.Stack())
+			if cp, ok := p.(*CarriedPanic); ok {
+				p, st = cp.Val, cp.Stack
+			}
 			r.Violation(c, "panic:"+what+":"+panicSite(st), fmt.Sprintf("panic: %v\n%s", p, st), caseData)
 		}
 	}()
